@@ -409,6 +409,37 @@ func runC07(c *core.Ctx) {
 	c.Check(badUnder == "", "R5", "BufferedChannelQueue/under-lock", p.Pos(bq.Obj().Pos()), fmt.Sprintf("%d instructions execute under the queue lock, none can block", nUnder), "blocking operation under the queue lock stalls every producer and consumer: "+badUnder)
 	// ---------------- R6 ChannelQueue wrappers
 	c07wrappers(c)
+	// ---------------- R10 the configured bound is the one given
+	c.Rule("R10", "the overflow bound an object is built with is the value the constructor was given: no positive constant (a default substituted for a legal value such as 0) can reach the bufferSizeMaximum field at construction", 1)
+	{
+		n, bad := 0, ""
+		for _, f := range p.Funcs {
+			core.Instrs(f, func(ins ssa.Instruction) {
+				st, ok := ins.(*ssa.Store)
+				if !ok || core.FieldKey(st.Addr) != "BufferedChannelQueue.bufferSizeMaximum" {
+					return
+				}
+				fa, isFA := st.Addr.(*ssa.FieldAddr)
+				if !isFA {
+					return
+				}
+				if _, fresh := core.Resolve(core.FieldOwner(fa)).(*ssa.Alloc); !fresh {
+					return // a setter on an existing queue
+				}
+				n++
+				for _, lf := range core.Origins(p, st.Val, nil) {
+					if k, isK := lf.Val.(*ssa.Const); isK && k.Value != nil && k.Int64() > 0 {
+						bad = fmt.Sprintf("%s stores a bound that can be the constant %d instead of the value it was given (%s)", core.FuncName(f), k.Int64(), p.InstrPos(ins))
+					}
+				}
+			})
+		}
+		if n == 0 {
+			c.Unknown("R10", "BufferedChannelQueue/bound-as-given", "-", "no construction-time store of the overflow bound found")
+		} else {
+			c.Check(bad == "", "R10", "BufferedChannelQueue/bound-as-given", "queue.go", fmt.Sprintf("%d construction sites store the given bound", n), bad+": a queue asked for that bound accepts more than channelCapacity + bufferSizeMaximum items")
+		}
+	}
 	// ---------------- R9 consumers hand out what they took
 	c.Rule("R9", "a consumer entry point (Poll/Take/TakeWithTimeout) returns, whenever its error result can be nil, the very value its channel operation yielded - a value taken from the channel is never replaced (e.g. by the zero value of a shadowed named result) and thereby lost", 3)
 	for _, name := range []string{"Poll", "Take", "TakeWithTimeout"} {
